@@ -142,7 +142,12 @@ BindOne(s, modq, m, orig, as, fallback) ==
              ELSE IF orig \in DOMAIN s.cont[m] THEN s.cont[m][orig] ELSE ResolveName(s, m, <<orig>>, BO)
       omi == IF isM THEN s.objs[m].site.m ELSE 0
       originListsIt == isM /\ mstate[omi] # "UNPROCESSED" /\ ~Mod(omi).broken /\ Mod(omi).hasAll /\ orig \in SeqRange(Mod(omi).all)
-      move == isM /\ as \in CurExports(s) /\ ob # NoObj /\ ~originListsIt
+      RECURSIVE AncestorsOf(_)
+      AncestorsOf(x) == IF x = NoObj THEN {} ELSE {x} \cup AncestorsOf(s.objs[x].par)
+      \* an object is not moved into itself or one of its members, a root stays where it is, modules live in packages only
+      movable == ob # NoObj /\ ob \notin AncestorsOf(Cur) /\ s.objs[ob].par # NoObj
+                 /\ ~(IsModCls(Cls(s, ob)) /\ Cls(s, Cur) # "Package")
+      move == isM /\ as \in CurExports(s) /\ movable /\ ~originListsIt
   IN IF move THEN Reparent(s, ob, Cur, as)
      ELSE SetAlias(s, Cur, as, fallback)
 
